@@ -10,6 +10,8 @@ mod props;
 mod aio;
 mod t01;
 mod t02;
+mod t04;
+mod t06;
 mod t20;
 
 fn main() {
@@ -19,6 +21,8 @@ fn main() {
     let st = match args.get(1).map(|s| s.as_str()) {
         Some("C01") => t01::run(quick),
         Some("C02") => t02::run(quick),
+        Some("C04") => t04::run(quick),
+        Some("C06") => t06::run(quick),
         Some("C20") => t20::run(quick),
         _ => {
             eprintln!("hvc-tokio: no tokio twin for {:?}", args.get(1));
